@@ -200,6 +200,17 @@ def unit(u, res):
             prepared = outs0[0].state.anchors[0].val
             expect_user = bool(user_fn)
             ctx_builder = lambda st: copy_value(prepared)
+        elif via in ('clear', 'clear_variables') and ctxkind == 'hashmap':
+            # removing variables (and functions) leaves the builtin switch alone
+            pre_body = C.p.find_inherent('HashMapContext', via)
+            ex0, outs0 = C.run(pre_body, lambda st: [ref_to(st, mkctx(st), mut=True)], pc=cons)
+            res.bodies |= ex0.bodies_used
+            if len(outs0) != 1 or outs0[0].kind != 'return':
+                res.inconclusive.append('context preparation %s produced %d paths' % (via, len(outs0)))
+                return
+            prepared = outs0[0].state.anchors[0].val
+            expect_user = bool(user_fn) and via != 'clear'
+            ctx_builder = lambda st: copy_value(prepared)
         elif via in ('clone', 'clear_functions') and ctxkind == 'hashmap':
             # establish the configuration through the API first: clone the context / clear its functions, then dispatch
             pre_body = C.p.find_method('Clone', 'HashMapContext', 'clone') if via == 'clone' else C.method('HashMapContext', 'clear_functions')
@@ -294,6 +305,8 @@ def replay_ce(ce):
                 ops = ['clear_functions']
             elif via == 'clone_from':
                 ops = ['clonefrom']
+            elif via in ('clear', 'clear_variables'):
+                ops = [via]
             elif via == 'set_flag':
                 kw['disabled'] = bool(ce.get('pre_disabled'))
                 ops = ['disable %d' % (1 if ce.get('disabled') else 0)]
@@ -307,7 +320,7 @@ def replay_ce(ce):
                                                                                                                ctx='hashmap', vars=[('v', ('Int', 4))])
             out = replay.run_cases(text, prof)
             r, rb = out['d'].get('result'), out['b'].get('result')
-            expect_user = user_fn and ctxkind == 'hashmap' and via != 'clear_functions'
+            expect_user = user_fn and ctxkind == 'hashmap' and via not in ('clear_functions', 'clear')
             disabled = ce.get('disabled', False) if ctxkind == 'hashmap' else ctxkind == 'empty'
             if expect_user and user_fn == 'fail':
                 okk = bool(r and r[0] == 'Err' and r[1] == 'CustomMessage')
@@ -337,7 +350,7 @@ def main():
     cfgs = []
     for user_fn in (False, 'marker', 'fail'):
         for var_named in (False, True):
-            for via in ('direct', 'clone', 'clear_functions', 'set_flag', 'clone_from'):
+            for via in ('direct', 'clone', 'clear_functions', 'set_flag', 'clone_from', 'clear', 'clear_variables'):
                 cfgs.append(('hashmap', user_fn, var_named, via))
     cfgs += [('empty', False, False, 'direct'), ('emptyb', False, False, 'direct')]
     names = c10.BUILTINS + ['foo', 'math::sinus', 'random']
